@@ -28,7 +28,10 @@ PROP = dict(
     rule="exhaustive grid: server maximum {0,2,3,86400} x publisher interval {0,1,2,3,5,100} (MQTT 5) or none (MQTT 3 "
          "publisher) x place {retained, parked session, held back by receive maximum 1} x one housekeeping run at "
          "expiry time + {-1,0,+1,+100}, then the delivery (late subscriber / reconnect / acknowledgement that frees "
-         "the quota); 120 (thorough 6000) random scenarios with two housekeeping runs at offsets "
+         "the quota); mixed protocol versions: MQTT 5 publisher (interval 1/2/5) x MQTT 3.1.1 / 3.1 receiver and MQTT 3.x "
+         "publisher x MQTT 3.x receiver, server maximum {0,3,86400}, copy in the retained store or in the in-flight "
+         "store of a parked session, same boundary offsets (whether the message has an expiry of its own depends on "
+         "the publisher's message only); 120 (thorough 6000) random scenarios with two housekeeping runs at offsets "
          "{-5,-1,0,1,2,7,100,100000} (retained: a late subscriber after each); 9 scenarios in which real time passes "
          "the expiry time (sleep 1.1-2.1 s) before the delivery.  non-trivial = the message has an expiry time; "
          "distinct = distinct case lines",
